@@ -462,7 +462,11 @@ def s_astype(ch, T):
     dt = ch.choose("dtype", ["float", "np.float64", "np.float32", "complex"])
     if not shape:
         x = onp.array(x)
-    return Case("astype", "x.astype(%s)" % dt, dict(x=x), dict(rank=len(shape), dtype=dt), family="S")
+    case = Case("astype", "x.astype(%s)" % dt, dict(x=x), dict(rank=len(shape), dtype=dt), family="S")
+    # reduced precision output: finite differences of a float32-valued function carry noise ~ eps32/h, far above the comparison
+    # tolerance, so only structure (C05) and primal transparency (C06) are judged there, never values
+    case.value_oracle = dt != "np.float32"
+    return case
 
 
 @spec("getitem_basic", "S")
